@@ -669,3 +669,39 @@ func simplifyForm(f *bform) *bform {
 	}
 	return f
 }
+
+// pushNegations rewrites a formula so that "not" only stands in front of atoms and opaque operands (De Morgan); the
+// conjuncts of a guard like !(a || !b) then show as !a and b.
+func pushNegations(f *bform, neg bool) *bform {
+	if f == nil {
+		return nil
+	}
+	switch f.op {
+	case "not":
+		return pushNegations(f.kids[0], !neg)
+	case "and", "or":
+		op := f.op
+		if neg {
+			op = map[string]string{"and": "or", "or": "and"}[op]
+		}
+		out := &bform{op: op}
+		for _, k := range f.kids {
+			out.kids = append(out.kids, pushNegations(k, neg))
+		}
+		return out
+	case "true":
+		if neg {
+			return &bform{op: "false"}
+		}
+		return f
+	case "false":
+		if neg {
+			return &bform{op: "true"}
+		}
+		return f
+	}
+	if neg {
+		return &bform{op: "not", kids: []*bform{f}}
+	}
+	return f
+}
